@@ -549,11 +549,17 @@ class Sym(object):
                 if e:
                     b = b * b
             return r
+        if (isinstance(e, (float, _np.floating, Fraction)) and not self.is_const() and getattr(ctx(), 'log_algebra', False)):
+            from . import stubs_math
+            return stubs_math.pow_frac(self, e)
         if isinstance(e, (float, _np.floating, Fraction)) and Fraction(e) == Fraction(1, 2):
             return self.sqrt()
         if self.is_const():
             v = self.const_value() ** e
             return _lift(v)
+        if getattr(ctx(), 'log_algebra', False) and isinstance(e, (float, _np.floating, Fraction)):
+            from . import stubs_math
+            return stubs_math.pow_frac(self, e)
         raise SymError("non-integer power %r of a symbolic value" % (e,))
 
     def __rpow__(self, b):
